@@ -290,12 +290,14 @@ impl Axecutor {
     }
 
     fn collect_mem_error_hints(&self, address: u64, length: u64, operation: String) -> AxError {
+        // End addresses are computed in 128 bits: this runs for exactly the accesses that are out of range,
+        // including those whose end lies beyond the 64-bit address space
+        let access_end = address as u128 + length as u128;
+
         // check if start or end address is within any of the memory areas
         for area in &self.state.memory {
-            if address >= area.start
-                && address < area.start + area.length
-                && address + length > area.start + area.length
-            {
+            let area_end = area.start as u128 + area.length as u128;
+            if address >= area.start && (address as u128) < area_end && access_end > area_end {
                 return AxError::from(format!(
                     "Memory {} of length {} at address {:#x} over end of memory area {} (start {:#x}, length {})",
                     operation.to_lowercase(),
@@ -312,7 +314,8 @@ impl Axecutor {
         }
 
         for area in &self.state.memory {
-            if address + length > area.start && address + length <= area.start + area.length {
+            let area_end = area.start as u128 + area.length as u128;
+            if access_end > area.start as u128 && access_end <= area_end {
                 return AxError::from(format!(
                     "Memory {} of length {} at address {:#x} before start of memory area {} (start {:#x}, length {})",
                     operation.to_lowercase(),
